@@ -109,6 +109,16 @@ def points_from_ops(ops, mode, tier, r):
             for n in sorted(set(ns)):
                 for v in (["before", "flush"] if mode == "crash" and kind == "h5close" else ["before"]):
                     pts.append({"target": {"kind": kind, "base": base, "n": n}, "variant": v})
+    if mode == "fault":
+        # the same failures with other error numbers: a handler written for one class of OSError must not treat the step as done
+        extra = []
+        for p in pts:
+            k_ = p["target"]["kind"]
+            if k_ in ("replace", "h5create", "h5close") or (k_ in ("csv", "fwrite") and p.get("byte", 0) == 0):
+                for en in ("EACCES", "EIO"):
+                    q = dict(p); q["errno"] = en
+                    extra.append(q)
+        pts += extra
     for p in pts:
         p["mode"] = mode
     return pts
@@ -201,7 +211,7 @@ def run_family(chk, mode, props_file, rule):
     r = chk.rng("interrupt")
     quick = chk.tier == "quick"
     nworlds = 2 if quick else 3
-    per_scen = 22 if quick else 300
+    per_scen = (22 if mode == "crash" else 28) if quick else 300
     per_big = 24 if quick else 120
     scen_idx = {0: [0, 1, 2, 6, 9, 10], 1: [3, 4, 5, 7, 8]} if quick else {i: list(range(len(SCENARIOS))) for i in range(nworlds)}
     if quick and not built:
@@ -245,10 +255,12 @@ def run_family(chk, mode, props_file, rule):
                     # keep every kind represented: round-robin over kinds
                     bykind = {}
                     for p in pts:
-                        bykind.setdefault(p["target"]["kind"] + ("_term" if p.get("variant") == "term" else ""), []).append(p)
+                        bykind.setdefault(p["target"]["kind"] + ("_term" if p.get("variant") == "term" else "") + ("_" + p["errno"] if p.get("errno") else ""), []).append(p)
                     for l in bykind.values():
                         r.shuffle(l)
                     pick = bykind.pop("replace", [])       # every rename: these are the boundaries between the crash states
+                    if mode == "fault":
+                        pick += bykind.pop("replace_EACCES", [])
                     lim = per_big if big else per_scen
                     while len(pick) < lim and any(bykind.values()):
                         for k in ["csv", "fwrite"] + sorted(bykind):      # text caches get a double share
